@@ -84,7 +84,7 @@ class Ctx:
         m = load_module(module)
         cls = m.get_class(clsname)
         with use_state(self.state):
-            return new_obj(cls, attrs, frozen=cls.frozen if frozen is None else frozen)
+            return new_obj(cls, attrs, frozen=cls.frozen if frozen is None else frozen, built_by_contract=True)
 
     def pylist(self, items):
         from .interp import new_list
